@@ -226,6 +226,13 @@ class Backend:
         return sorted(out, key=lambda e: e[0])
 
 
+def counters(b):
+    """the id allocator(s) of the store: start_id, resp. sorted [[gid, next id]]"""
+    if b.kind == 'shared':
+        return int(b.storage.start_id)
+    return sorted([SYM[g], int(v)] for g, v in b.storage.storage_instance.graph_node_ids.items())
+
+
 def run_history(kind, ops):
     """-> list of {'r': ['ok', rval] | ['err', cls], 's': snapshot | None (= unchanged)}"""
     b = Backend(kind)
@@ -243,7 +250,7 @@ def run_history(kind, ops):
         except BaseException as e:     # content outside the modelled universe (e.g. a cyclic attribute value)
             out.append({'r': r, 's': None, 'bad': type(e).__name__})
             break
-        out.append({'r': r, 's': None if snap == last else snap})
+        out.append({'r': r, 's': None if snap == last else snap, 'n': counters(b)})
         last = snap
     return out
 
@@ -785,3 +792,14 @@ def op_histogram(cases, obs_lists):
             if o['s'] is not None:
                 h['state_changing_steps'] += 1
     return h
+
+
+def q_iso_steps(kind, ops, obs):
+    """C04's cases: (op, result, snapshot | unchanged, allocator state after the step)"""
+    out = []
+    for op, o in zip(ops, obs):
+        if o.get('bad'):
+            break
+        n = cN(o['n']) if kind == 'shared' else clist(['(%s, %s)' % (cN(g), cN(v)) for g, v in o['n']])
+        out.append('(%s, %s, %s, %s)' % (q_op(op), q_res(o['r']), q_snap(kind, o['s']), n))
+    return clist(out)
